@@ -284,6 +284,12 @@ func c06Decoding(r *core.Run, x *explore.X) {
 	}
 	badInt := x.Bool()
 	exclude := x.Bool()
+	// the object schema directly, or one level deeper as the only alternative of a composition (the request reading
+	// must reach it there too); JSON bodies only, the form decoders read the properties off the schema
+	wrap := ""
+	if format == "json" {
+		wrap = explore.Pick(x, []string{"", "allOf", "anyOf", "oneOf"})
+	}
 	order := x.Deviate(2)
 	if !r.Own(x) {
 		return
@@ -295,6 +301,9 @@ func c06Decoding(r *core.Run, x *explore.X) {
 		}
 	}
 	raw := c06ObjSchema(req)
+	if wrap != "" {
+		raw = m(wrap, l(raw))
+	}
 	schema, err := loadSchema(raw)
 	if err != nil {
 		panic(err)
@@ -308,6 +317,9 @@ func c06Decoding(r *core.Run, x *explore.X) {
 	key := strings.SplitN(ct, ";", 2)[0]
 	rb := &openapi3.RequestBody{Required: true, Content: openapi3.Content{key: mt}}
 	sig := fmt.Sprintf("decode format=%s encoding=%s required=%v value=%s bad_integer=%v ExcludeReadOnlyValidations=%v", format, enc.name, req, CanonJSON(value), badInt, exclude)
+	if wrap != "" {
+		sig += " schema-under=" + wrap
+	}
 	r.Case(fmt.Sprintf("%s|%d", sig, order), len(body) > 0)
 	if r.WantSample(x) {
 		r.Sample(x, map[string]any{"case": sig, "body": string(body), "content_type": ct})
